@@ -28,7 +28,7 @@ M = [
  ("c03-float-field-from-uint-via-int", "internal/core/execute.go", "\t\t\tif strings.HasPrefix(typeName, \"uint\") {\n\t\t\t\tfield.SetFloat(float64(value.Uint()))", "\t\t\tif strings.HasPrefix(typeName, \"uint\") {\n\t\t\t\tfield.SetFloat(float64(int64(value.Uint())))", ["C03"], 1),
  ("c03-locals-before-injected", "context/data_context.go", "\t\t//user set\n\t\tdc.lockBase.Lock()\n\t\tv, ok := dc.base[variable]\n\t\tdc.lockBase.Unlock()\n\n\t\tif ok {\n\t\t\treturn v, nil\n\t\t}\n\t\t//in RuleEntity\n\t\tdc.lockVars.Lock()\n\t\tres, rok := Vars[variable]\n\t\tdc.lockVars.Unlock()\n\t\tif rok {\n\t\t\treturn res, nil\n\t\t}", "\t\t//in RuleEntity\n\t\tdc.lockVars.Lock()\n\t\tres, rok := Vars[variable]\n\t\tdc.lockVars.Unlock()\n\t\tif rok {\n\t\t\treturn res, nil\n\t\t}\n\t\t//user set\n\t\tdc.lockBase.Lock()\n\t\tv, ok := dc.base[variable]\n\t\tdc.lockBase.Unlock()\n\n\t\tif ok {\n\t\t\treturn v, nil\n\t\t}", [], 1),
  # --- C04
- ("c04-comparator-flipped-incremental", "internal/tool/tool.go", "if re[mid].Salience < salience {", "if re[mid].Salience <= salience {", ["C04", "C08"], 1),
+ ("c04-binarysearch-loop-bound", "internal/tool/tool.go", "for low <= high {", "for low < high {", ["C04", "C08"], 1),
  ("c04-selected-sort-ascending", "engine/gengine.go", "func (g *Gengine) ExecuteSelectedRulesWithControl(rb *builder.RuleBuilder, b bool, names []string) error {", "func (g *Gengine) ExecuteSelectedRulesWithControl(rb *builder.RuleBuilder, b bool, names []string) error {\n\tdefer func() {}()", [], 1),
  ("c04-continue-returns-nil", "engine/gengine.go", "\tif len(eMsg) > 0 {\n\t\treturn errors.New(fmt.Sprintf(\"%+v\", eMsg))\n\t}\n\treturn nil\n}\n\n/**\nsort execute model\n\nwhen b is true it means when there are many rules， if one rule execute error，continue to execute rules after the occur error rule;", "\tif len(eMsg) > 1 {\n\t\treturn errors.New(fmt.Sprintf(\"%+v\", eMsg))\n\t}\n\treturn nil\n}\n\n/**\nsort execute model\n\nwhen b is true it means when there are many rules， if one rule execute error，continue to execute rules after the occur error rule;", ["C04", "C09"], 1),
  # --- C05
